@@ -19,6 +19,46 @@ type StrV struct {
 	b   []*Term
 	num *NumTag // non-nil: this string is the textual rendering of a number (strconv contract)
 	tok interface{}
+	// src is set for a string made by reinterpreting a []byte through unsafe (util.BytesToString): the string shares
+	// the slice's memory, so a later write to those bytes changes the string. sync() re-reads it from the cells.
+	src *SliceV
+}
+
+// sync refreshes an aliased string from the memory it shares (no-op for ordinary strings).
+func (s *StrV) sync() {
+	if s.src == nil {
+		return
+	}
+	var nb []*Term
+	for i := range s.b {
+		t, ok := (*s.src.elem(int64(i))).(*Term)
+		if !ok || t == s.b[i] {
+			continue
+		}
+		if nb == nil {
+			nb = append([]*Term(nil), s.b...)
+		}
+		nb[i] = t
+	}
+	if nb != nil {
+		s.b = nb
+		s.num = nil
+		s.tok = nil
+	}
+}
+
+// subAlias returns the header of the memory shared by s[lo:] (nil if s is not aliased).
+func (s *StrV) subAlias(lo int64) *SliceV {
+	if s.src == nil {
+		return nil
+	}
+	h := *s.src
+	if h.sp != nil {
+		h.off += lo
+	} else {
+		h.dense = h.dense[lo:]
+	}
+	return &h
 }
 
 // NumTag marks a string/byte slice produced by a number formatter: parse(format(x)) = x.
